@@ -8,8 +8,14 @@
 //   solvestatus <status> <nsol> <nbnd> <nunk> <npend> <ninner> <interrupted> => 1
 //   solvetwo <p1> <p2> <existence box> => 1            two distinct planted solutions never share a 'solution' box of a square system
 //   defaultsolver <what> => <status | ABORT:msg>
+// C18 (second half): interrupted search, saved, reloaded, resumed (workload c18r)
+//   resumeload <items saved> => <items loaded>          the loaded paving is the saved one
+//   resumelog <dags> <specs> <items the run starts from> <events> <items of the resumed run> => <status>
+//        items: I~box  S~existence~unicity~vars  B~box[~vars]  U~box  D~box  joined by ','  ("-" when empty)
 #include "common.h"
 #include "expr_io.h"
+#include <sys/stat.h>
+#include <unistd.h>
 using namespace ibex; using namespace vh; using namespace std;
 
 static long emitted = 0;
@@ -93,6 +99,50 @@ static string paving_token(const CovSolverData& d, int n, int m) {
   if (out.empty()) return "-";
   string s; for (size_t i = 0; i < out.size(); i++) { if (i) s += ","; s += out[i]; } return s;
 }
+// every box of the data with its verdict (C18: carried over unchanged / re-queued)
+static string varset_tok(const VarSet& v) { string vs; for (int k = 0; k < v.nb_var; k++) { if (k) vs += "."; vs += to_string(v.var(k)); } return vs; }
+static string items_token(const CovSolverData& d, int n, int m) {
+  vector<string> out;
+  string all; for (int k = 0; k < n; k++) { if (k) all += "."; all += to_string(k); }
+  for (size_t i = 0; i < d.nb_inner(); i++) out.push_back("I~" + tok(d.inner(i)));
+  if (m > 0) for (size_t i = 0; i < d.nb_solution(); i++)
+    out.push_back("S~" + tok(d.solution(i)) + "~" + tok(d.unicity(i)) + "~" + (m == n ? all : varset_tok(d.solution_varset(i))));
+  for (size_t i = 0; i < d.nb_boundary(); i++) {
+    if (m == 0) out.push_back("B~" + tok(d.boundary(i)));
+    else out.push_back("B~" + tok(d.boundary(i)) + "~" + (m == n ? all : varset_tok(d.boundary_varset(i)))); }
+  for (size_t i = 0; i < d.nb_unknown(); i++) out.push_back("U~" + tok(d.unknown(i)));
+  for (size_t i = 0; i < d.nb_pending(); i++) out.push_back("D~" + tok(d.pending(i)));
+  if (out.empty()) return "-";
+  string s; for (size_t i = 0; i < out.size(); i++) { if (i) s += ","; s += out[i]; } return s;
+}
+
+// a square system with a SINGULAR solution p* (the solver can only leave 'unknown' boxes around it) and regular ones
+static bool make_singular(Rng& r, Problem& P) {
+  int n = r.range(1, 2); P.n = n; P.m = n; P.k = 0;
+  Vector p(n); for (int i = 0; i < n; i++) p[i] = dyadic(r);
+  SystemFactory fac;
+  Array<const ExprSymbol> x(n); for (int i = 0; i < n; i++) x.set_ref(i, ExprSymbol::new_(("x" + to_string(i)).c_str(), Dim::scalar()));
+  IntervalVector box(n); for (int i = 0; i < n; i++) box[i] = Interval(p[i] - r.range(1, 16) / 8.0, p[i] + r.range(8, 24) / 8.0);
+  fac.add_var(x, box);
+  P.dags = ""; P.specs = "";
+  P.planted.clear(); P.planted.push_back(p);
+  for (int j = 0; j < n; j++) {
+    const ExprNode* e;
+    double a = p[j], b = p[j] + r.range(1, 8) / 8.0;    // second (regular) root of equation 0
+    if (j == 0) {
+      switch (r.below(3)) {
+        case 0: e = &(sqr(x[0] - a) * (x[0] - b)); { Vector q = p; q[0] = b; P.planted.push_back(q); } break;   // double root a, simple root b
+        case 1: e = &(sqr(x[0] - a)); break;
+        default: e = &(pow(x[0] - a, 3) + (n > 1 ? sqr(x[1] - p[1]) : sqr(x[0] - a))); }
+    } else e = &((x[j] - p[j]) * (1.0 + sqr(x[0])));
+    if (j) { P.dags += "|"; P.specs += "|"; }
+    P.dags += dump_expr(*e, x); P.specs += "eq";
+    fac.add_ctr(ExprCtr(*e, EQ));
+  }
+  P.sys = new System(fac);
+  return true;
+}
+
 static const char* status_name(Solver::Status s) {
   switch (s) { case Solver::SUCCESS: return "SUCCESS"; case Solver::INFEASIBLE: return "INFEASIBLE"; case Solver::NOT_ALL_VALIDATED: return "NOT_ALL_VALIDATED";
     case Solver::TIME_OUT: return "TIME_OUT"; case Solver::CELL_OVERFLOW: return "CELL_OVERFLOW"; default: return "USER_BREAK"; }
@@ -118,11 +168,100 @@ static void report(Rng& r, Problem& P, const IntervalVector& root, const CovSolv
   EMIT("solvestatus %s %zu %zu %zu %zu %zu %d => 1\n", status_name(st), P.m > 0 ? d.nb_solution() : (size_t)0, d.nb_boundary(), d.nb_unknown(), d.nb_pending(), d.nb_inner(), interrupted ? 1 : 0);
 }
 
+// ---------------------------------------------------------------------------------------------------
+// C18 (second half): every interruption point, save, reload, resume, chains
+struct Config { int ctc_kind; bool newton; int bsc_kind; int buf_kind; Vector eps_min, eps_max; Config() : eps_min(1), eps_max(1) {} };
+
+// one run with fresh components; `from` = NULL: start from the initial box, else resume from the data
+struct Run {
+  CtcHC4* hc4; CtcAcid* acid; CtcCompo* compo; CtcNewton* newton; CtcCompo* withnewton; LogCtc* lctc; Bsc* bsc;
+  CellStack stack; CellList list; LogBuffer* lbuf; Solver* s; vector<string> log; Solver::Status st;
+  Run(Problem& P, const Config& c, const CovSolverData* from, long cell_limit, double time_limit) {
+    System& sys = *P.sys;
+    hc4 = new CtcHC4(sys, 0.01); acid = new CtcAcid(sys, *hc4); compo = new CtcCompo(*hc4, *acid);
+    Ctc* base = c.ctc_kind == 0 ? (Ctc*)hc4 : (Ctc*)compo;
+    newton = 0; withnewton = 0;
+    if (c.newton) { newton = new CtcNewton(sys.f_ctrs, 5e8, 1e-7, 0.01); withnewton = new CtcCompo(*base, *newton); base = withnewton; }
+    lctc = new LogCtc(*base);
+    switch (c.bsc_kind) { case 0: bsc = new RoundRobin(c.eps_min, 0.45); break; case 1: bsc = new LargestFirst(c.eps_min, 0.5); break; default: bsc = new SmearSumRelative(sys, c.eps_min, 0.45); }
+    lbuf = new LogBuffer(c.buf_kind == 0 ? (CellBuffer&)stack : (CellBuffer&)list);
+    s = new Solver(sys, *lctc, *bsc, *lbuf, c.eps_min, c.eps_max);
+    s->cell_limit = cell_limit; s->time_limit = time_limit; s->trace = 0;
+    RNG::srand(1);
+    LOG = &log;
+    st = from ? s->solve(*from) : s->solve(sys.box);
+    LOG = 0;
+    check_round_up("solver");
+  }
+  ~Run() { delete s; delete lbuf; delete bsc; delete lctc; if (withnewton) delete withnewton; if (newton) delete newton; delete compo; delete acid; delete hc4; }
+  string events() const { if (log.empty()) return "-"; string ev; for (size_t i = 0; i < log.size(); i++) { if (i) ev += ","; ev += log[i]; } return ev; }
+};
+
+static void wl_resume(Rng& r, long count, bool full, const string& file) {
+  for (long it = 0; it < count; it++) {
+    try {
+      Problem P; bool okp = r.coin(35) ? make_singular(r, P) : make_problem(r, P); if (!okp) continue;
+      System& sys = *P.sys; IntervalVector root = sys.box;
+      Config c; double e = r.coin() ? 0.125 : 0.03125;
+      c.eps_min = Vector(P.n, e); c.eps_max = Vector(P.n, r.coin(80) ? POS_INFINITY : 1.0);
+      c.ctc_kind = r.coin(70) ? 0 : 1; c.newton = (P.m == P.n && P.k == 0 && r.coin(40)); c.bsc_kind = r.below(3); c.buf_kind = r.coin(70) ? 0 : 1;
+      // the uninterrupted run: number of cells N
+      long maxN = full ? 600 : 160;
+      long N;
+      { Run u(P, c, 0, maxN, 60); N = (long)u.s->get_nb_cells(); if (u.st == Solver::CELL_OVERFLOW || u.st == Solver::TIME_OUT) { delete P.sys; continue; } }
+      // interruption points: every k when the search is small (the limit is reached after a bisection: odd counts),
+      // otherwise a sample that keeps the first and the last ones
+      vector<long> ks;
+      for (long k = 1; k <= N + 1; k++) ks.push_back(k);
+      long maxk = full ? 120 : 24;
+      if ((long)ks.size() > maxk) { vector<long> sel; for (long k : ks) if (k <= 3 || k >= N - 8 || r.coin((int)(100 * maxk / ks.size()))) sel.push_back(k); ks = sel; }
+      ks.push_back(-2);   // interruption by the time limit (non-deterministic point)
+      for (long k : ks) {
+        int links = r.coin(25) ? (int)r.range(2, 3) : 1;
+        Run* cur = (k == -2) ? new Run(P, c, 0, -1, 1e-4 * r.range(1, 20)) : new Run(P, c, 0, k, 60);
+        if (r.coin(10) && cur->log.size() < 3000) {
+          string pv = paving_token(cur->s->get_data(), P.n, P.m);
+          EMIT("solvelog %s %s %s %s %s => %s\n", P.dags.c_str(), P.specs.c_str(), tok(root).c_str(), cur->events().c_str(), pv.c_str(), status_name(cur->st));
+        }
+        for (int l = 0; l < links; l++) {
+          string saved = items_token(cur->s->get_data(), P.n, P.m);
+          cur->s->get_data().save(file.c_str());
+          delete cur; cur = 0;
+          CovSolverData data(file.c_str());
+          string loaded = items_token(data, P.n, P.m);
+          EMIT("resumeload %s => %s\n", saved.c_str(), loaded.c_str());
+          long k2 = (l + 1 < links) ? r.range(1, (int)std::max(2L, N / 2)) : -1;
+          cur = new Run(P, c, &data, k2, 60);
+          if (cur->log.size() < 8000)
+            EMIT("resumelog %s %s %s %s %s => %s\n", P.dags.c_str(), P.specs.c_str(), loaded.c_str(), cur->events().c_str(),
+                 items_token(cur->s->get_data(), P.n, P.m).c_str(), status_name(cur->st));
+        }
+        // the final data must satisfy the guarantees of an uninterrupted run
+        vector<string> nolog;
+        report(r, P, root, cur->s->get_data(), cur->st, nolog, c.eps_min, false);
+        delete cur;
+      }
+      delete P.sys;
+    } catch (VerifAbort& a) { string m = a.what(); for (auto& ch : m) if (ch == ' ' || ch == '\n') ch = '_'; EMIT("harnesserror c18r abort:%s => 0\n", m.c_str()); }
+      catch (std::exception& e) { EMIT("harnesserror c18r %s => 0\n", typeid(e).name()); }
+  }
+}
+
 int main(int argc, char** argv) {
   string wl = argc > 1 ? argv[1] : "c05";
   uint64_t seed = argc > 2 ? strtoull(argv[2], 0, 10) : 1;
   long n = argc > 3 ? atol(argv[3]) : 50;
   Rng r(seed * 67867967 + 1);
+  if (wl == "c18r") {
+    bool full = false; for (int i = 4; i < argc; i++) if (string(argv[i]) == "full") full = true;
+    string a0 = argv[0]; size_t ps = a0.rfind('/'); string dir = (ps == string::npos ? string(".") : a0.substr(0, ps)) + "/runs";
+    mkdir(dir.c_str(), 0777);
+    string file = dir + "/h_solver_" + to_string(seed) + "_" + to_string((long)getpid()) + ".cov";
+    wl_resume(r, n, full, file);
+    unlink(file.c_str());
+    fprintf(stderr, "emitted %ld\n", emitted);
+    return 0;
+  }
   if (wl != "c05") { fprintf(stderr, "unknown workload\n"); return 2; }
   for (long it = 0; it < n; it++) {
     try {
